@@ -78,6 +78,8 @@ package hash
 //@   loop 1 iteration-ensures [ring-gets-node] has(h.ring, ret(h.hashFunc))
 //@   ensures [replaces-previous] calls(h.Remove, node) == 1 && before(Remove, addNode) && before(Remove, hashFunc)
 //@   ensures [one-position-per-replica] calls(hashFunc) == ite(n > 0, n, 0)
+// the positions are re-sorted after every addition, however few were added (Get binary-searches them)
+//@   ensures [positions-re-sorted] calls(sort.Slice) == 1 && typeis(arg(sort.Slice, 0), []uint64) && unbox(arg(sort.Slice, 0), []uint64) == h.keys
 
 //@ func (*ConsistentHash).AddWithWeight
 //@   prop C13
